@@ -7,5 +7,7 @@ func init() {
 		"the order in which WalkAttributes yields attributes is not asserted; characters = runes; strings of at most `limit` bytes must be unchanged, longer ones must equal the first `limit` valid characters of the offered string; Bytes values are not limited",
 		"in-place reordering / truncation of the caller's argument slices and nested slices by SetAttributes/AddAttributes WHILE the call runs is not asserted either way; the arguments of a call are what the argument slice holds when the call is made",
 		"after a call returned the caller may overwrite / reuse its top-level argument slice (incl. spare capacity) and hand it to other records; the arrays behind log.SliceValue/MapValue/BytesValue are never modified by the caller (documented: 'must not be changed after it is passed'), so nested arrays shared between caller, records and clones are not asserted against; all records of one case have the same limits",
+		"the limits are 'configured' by WithAttributeCountLimit / WithAttributeValueLengthLimit, by OTEL_LOGRECORD_ATTRIBUTE_COUNT_LIMIT / OTEL_LOGRECORD_ATTRIBUTE_VALUE_LENGTH_LIMIT holding a plain decimal integer when the option is not passed, or by the documented defaults 128 / -1; invalid environment values are not generated",
+		"a panic raised by SetAttributes / AddAttributes / Emit counts as a violation (Kind panic); while a case with a bulk call runs the garbage collector is held back and the SDK's sync.Pools are emptied afterwards, so that the outcome of a case does not depend on collector timing or on earlier cases",
 	))
 }
